@@ -825,6 +825,40 @@ def c06_query(kind, cov, lookup, sbox, smap, has_req):
 							qx, qy = _t(op2, qx, qy)
 					conds.append("(and " + _inbox("S", qx, qy) + " " + " ".join(c2) + ")")
 		L.append("(assert (not (and " + _inbox("B", ux, uy) + " " + " ".join(conds) + ")))")
+	elif kind == "stream_vs_lookup":
+		# C02 directly: for every output coordinate c = (u, v) and source tile p: the lookup at c inside the requested box B
+		# returns p  <=>  the stream over B delivers p at c
+		L.append("(declare-const u Int)")
+		L.append("(declare-const v Int)")
+		L.append("(assert (and (>= u 0) (<= u M) (>= v 0) (<= v M)))")
+
+		def in_advertised(qx, qy):
+			conds = []
+			for op2, arg2 in reversed(cov):
+				if op2 == "clip":
+					conds.append(_inbox("R", qx, qy) if arg2 == "REQ" else "true")
+				else:
+					qx, qy = _t(op2, qx, qy)
+			return "(and " + _inbox("S", qx, qy) + " " + " ".join(conds) + ")"
+
+		lx, ly = "u", "v"
+		g = []
+		for op, arg in lookup:
+			if op in ("flip", "swap"):
+				lx, ly = _t(op, lx, ly)
+			elif op in ("guard", "clip"):
+				g.append(_inbox("R", lx, ly) if arg == "REQ" else in_advertised(lx, ly))
+		a_side = "(and " + _inbox("B", "u", "v") + " " + " ".join(g) + f" (= {lx} x) (= {ly} y))"
+		ux, uy = "x", "y"
+		conds = []
+		for op, arg in reversed(sbox):
+			if op in ("flip", "swap"):
+				ux, uy = _t(op, ux, uy)
+			elif op in ("clip", "guard"):
+				conds.append(_inbox("R", ux, uy) if arg == "REQ" else in_advertised(ux, uy))
+		mx, my = smt_apply(smap, "x", "y")
+		d_side = "(and " + _inbox("B", ux, uy) + " " + " ".join(conds) + f" (= {mx} u) (= {my} v))"
+		L.append(f"(assert (not (= {a_side} {d_side})))")
 	L.append("(check-sat)")
 	L.append("(get-model)")
 	return "\n".join(L) + "\n"
@@ -883,6 +917,17 @@ async fn run() {
 		let in_stream: Vec<_> = items.iter().filter(|(ic, _)| *ic == c).collect();
 		if in_stream.len() != 1 || in_stream[0].1.as_str() != want { bad += 1; println!("stream does not deliver source tile ({x},{y}) at ({cx},{cy}) exactly once"); }
 	}}
+	// stream vs lookups on boxes that also reach beyond the advertised coverage (C02)
+	for bbox in [TileBBox::new(2, 0, 0, 3, 3).unwrap(), TileBBox::new(2, 1, 0, 3, 2).unwrap(), TileBBox::new(2, 0, 1, 1, 3).unwrap()] {
+		let mut streamed: Vec<(u32, u32, String)> = conv.get_bbox_tile_stream(bbox.clone()).await.collect().await.into_iter().map(|(c, b)| (c.x, c.y, b.as_str().to_string())).collect();
+		streamed.sort();
+		let mut looked: Vec<(u32, u32, String)> = Vec::new();
+		for c in bbox.iter_coords() {
+			if let Some(b) = conv.get_tile_data(&c).await.unwrap() { looked.push((c.x, c.y, b.as_str().to_string())); }
+		}
+		looked.sort();
+		if streamed != looked { bad += 1; println!("stream over {bbox:?} delivers {} tiles, the lookups inside the box return {} (or different bytes / coordinates)", streamed.len(), looked.len()); }
+	}
 	if bad > 0 { println!("REPRODUCED: {bad} mismatches"); std::process::exit(1); }
 	println!("not reproduced");
 }
